@@ -28,6 +28,7 @@ import (
 	"github.com/krotik/ecal/config"
 	"github.com/krotik/ecal/engine"
 	"github.com/krotik/ecal/interpreter"
+	"github.com/krotik/ecal/scope"
 )
 
 func init() { register("C10", runC10) }
@@ -794,8 +795,179 @@ func c10scenarioPart(c *Ctx) {
 	}
 }
 
+// ---------------------------------------------------------------- sinks declared in ECAL source
+
+// An ECAL sink declaration goes through interpreter.sinkRuntime.createRule, which turns the
+// "priority <number>" of the source into the rule priority: int(math.Floor(value)).
+type c10SinkPrio struct {
+	Text string `json:"text"` // as written in the source
+	Int  int    `json:"int"`  // floor
+}
+
+var c10sinkPool = []c10SinkPrio{{"-1000000000", -1000000000}, {"-2", -2}, {"-1", -1}, {"-0.5", -1}, {"0", 0},
+	{"0.5", 0}, {"1", 1}, {"1.7", 1}, {"2", 2}, {"1000000000", 1000000000}}
+
+type c10Sink struct {
+	Prio  c10SinkPrio `json:"prio"`
+	Fails bool        `json:"fails"`
+	Adds  bool        `json:"adds"` // addEvent of a child event before returning / raising
+}
+
+type c10SinkScenario struct {
+	Type  string    `json:"type"` // "sinks"
+	Flag  bool      `json:"flag"` // true = the provider's default is left alone
+	Sinks []c10Sink `json:"sinks"`
+}
+
+func c10sinkSource(sc c10SinkScenario) string {
+	var sb strings.Builder
+	for j, sk := range sc.Sinks {
+		fmt.Fprintf(&sb, "sink s%d\n    kindmatch [ \"c10.k0\" ],\n    priority %s,\n    {\n        c10start(\"s%d\")\n", j, sk.Prio.Text, j)
+		if sk.Adds {
+			sb.WriteString("        addEvent(\"child\", \"c10.leaf\", {})\n")
+		}
+		if sk.Fails {
+			sb.WriteString("        raise(\"c10fail\", \"scripted failure\")\n")
+		}
+		sb.WriteString("    }\n")
+	}
+	sb.WriteString("sink leaf\n    kindmatch [ \"c10.leaf\" ],\n    {\n        c10start(\"leaf\")\n    }\n")
+	return sb.String()
+}
+
+func c10sinkOne(c *Ctx, sc c10SinkScenario, family string) {
+	sc.Type = "sinks"
+	var started []int
+	leaves := 0
+	var errs []int
+	var prios []int
+	var mu sync.Mutex
+	r := guarded(20*time.Second, func() (interface{}, error) {
+		erp := interpreter.NewECALRuntimeProvider("c10", nil, nil)
+		defer erp.Cron.Stop()
+		proc := erp.Processor
+		if !sc.Flag {
+			proc.SetFailOnFirstErrorInTriggerSequence(false)
+		}
+		vs := scope.NewScope(scope.GlobalScope)
+		vs.SetValue("c10start", &goFunc{func(args []interface{}) (interface{}, error) {
+			mu.Lock()
+			defer mu.Unlock()
+			name := fmt.Sprint(args[0])
+			if name == "leaf" {
+				leaves++
+			} else {
+				var j int
+				fmt.Sscanf(name, "s%d", &j)
+				started = append(started, j+1)
+			}
+			return nil, nil
+		}})
+		if _, err := evalProgram("c10", c10sinkSource(sc), vs, erp); err != nil {
+			return nil, fmt.Errorf("declaring the sinks: %v", err)
+		}
+		rules := proc.Rules()
+		for j := range sc.Sinks {
+			prios = append(prios, rules[fmt.Sprintf("s%d", j)].Priority)
+		}
+		proc.Start()
+		rm := proc.NewRootMonitor(nil, nil)
+		if m, err := proc.AddEvent(engine.NewEvent("ev", []string{"c10", "k0"}, nil), rm); err != nil || m == nil {
+			return nil, fmt.Errorf("the event was not accepted: %v", err)
+		}
+		proc.ThreadPool().WaitAll()
+		proc.Finish()
+		for _, te := range rm.AllErrors() {
+			if te.Event.Name() != "ev" {
+				continue
+			}
+			for name := range te.ErrorMap {
+				var j int
+				fmt.Sscanf(name, "s%d", &j)
+				errs = append(errs, j+1)
+			}
+		}
+		sort.Ints(errs)
+		return nil, nil
+	})
+	if r.Panicked || r.TimedOut {
+		c.Violate("sink-scenario-panic", "declaring / triggering ECAL sinks panicked or hung: "+r.PanicMsg, sc)
+		return
+	}
+	if r.Err != nil {
+		c.Violate("sink-scenario-error", r.Err.Error(), sc)
+		return
+	}
+	c.Dist["sinks_"+family]++
+	// (the priority the rule object got is not compared: only the order it produces counts)
+	_ = prios
+	// events added by actions that ran (the failing one included) are processed
+	want := 0
+	for _, id := range started {
+		if sc.Sinks[id-1].Adds {
+			want++
+		}
+	}
+	if leaves != want {
+		c.Violate("event-not-processed", fmt.Sprintf("%d child events were added by the sinks that ran, %d were processed", want, leaves), sc)
+	}
+	flag := 0
+	if sc.Flag {
+		flag = 1
+	}
+	data := []int{flag, len(sc.Sinks)}
+	for j, sk := range sc.Sinks {
+		f := 0
+		if sk.Fails {
+			f = 1
+		}
+		data = append(data, j+1, sk.Prio.Int, f)
+	}
+	data = append(data, len(started))
+	data = append(data, started...)
+	data = append(data, len(errs))
+	data = append(data, errs...)
+	id := c.NewID()
+	c.Dist["rule_sequences"]++
+	c.AddCase(id, c10raw(2, id, data), sc, fmt.Sprintf("%+v", sc), true)
+}
+
+func c10sinkPart(c *Ctx) {
+	P := c10sinkPool
+	n := 0
+	// every ordered pair (declaration order = pair order), the failing sink first / second / none
+	for i := range P {
+		for j := range P {
+			for f := -1; f < 2; f++ {
+				for _, flag := range []bool{true, false} {
+					if !flag && f != 0 && !c.Thorough() {
+						continue
+					}
+					if c.Enough() {
+						return
+					}
+					n++
+					c10sinkOne(c, c10SinkScenario{Flag: flag, Sinks: []c10Sink{
+						{Prio: P[i], Fails: f == 0, Adds: (i+j)%2 == 0},
+						{Prio: P[j], Fails: f == 1, Adds: true}}}, "pairs")
+				}
+			}
+		}
+	}
+	for k := 0; k < c.Pick(100, 2000) && !c.Enough(); k++ {
+		m := 3 + c.Rng.Intn(2)
+		sinks := make([]c10Sink, m)
+		for j := range sinks {
+			sinks[j] = c10Sink{Prio: P[c.Rng.Intn(len(P))], Fails: c.Rng.Intn(3) == 0, Adds: c.Rng.Intn(2) == 0}
+		}
+		n++
+		c10sinkOne(c, c10SinkScenario{Flag: c.Rng.Intn(4) != 0, Sinks: sinks}, "random")
+	}
+	c.Extra["ecal_sink_scenarios"] = n
+}
+
 func runC10(c *Ctx) error {
-	c.Rule = "(a) monitor API histories on one cascade: corpus (F15, F16 witnesses), every priority assignment over {0..3} for <=2 children x every protocol-respecting order of activate/skip/finish incl. the root monitor, every assignment for 3 and 4 children x sampled orders (thorough: also {0..5} for 5 and {0..4} for 6 children), random longer histories with interleaved creation and priorities from {-2..100} and the boundary pool {MinInt64, MinInt64+1, -5e18, -2, -1, 0, 1, 2, 5e18, MaxInt64-1, MaxInt64}; HighestPriority() compared after every call.  (b,c) processor scenarios with one worker held by a gate event while the initial events of 1..3 cascades are queued: systematic = one event with 1..3 (thorough 4) rules over priorities {0..3}, the failing rule at every rank / none / two, both settings of fail-on-first-error, every rule adding a child event; reset-history = the flag is set (engine API, or the ECAL runtime provider's default on), then the processor goes 0, 1 or 2 times through Finish(); Reset(); rules added again, before the observed event with a failing non-last rule; boundary = every ordered pair of the boundary pool as the priorities of a 2-rule event (failing rule at each rank / none, both flag settings) and random triples, child monitor priorities from the pool; random = up to 3 levels of event kinds, 1..4 rules each, skipped (non-triggering) child events, priorities -1..4; observed: queue trace (push/pop with the cascade chosen), per-cascade monitor history with HighestPriority() sampled inside every action, per event the action start sequence and the error report.  non-trivial = history with a finish or skip / trace with more than one pop / event with several rules or a failing one"
+	c.Rule = "(a) monitor API histories on one cascade: corpus (F15, F16 witnesses), every priority assignment over {0..3} for <=2 children x every protocol-respecting order of activate/skip/finish incl. the root monitor, every assignment for 3 and 4 children x sampled orders (thorough: also {0..5} for 5 and {0..4} for 6 children), random longer histories with interleaved creation and priorities from {-2..100} and the boundary pool {MinInt64, MinInt64+1, -5e18, -2, -1, 0, 1, 2, 5e18, MaxInt64-1, MaxInt64}; HighestPriority() compared after every call.  (b,c) processor scenarios with one worker held by a gate event while the initial events of 1..3 cascades are queued: systematic = one event with 1..3 (thorough 4) rules over priorities {0..3}, the failing rule at every rank / none / two, both settings of fail-on-first-error, every rule adding a child event; reset-history = the flag is set (engine API, or the ECAL runtime provider's default on), then the processor goes 0, 1 or 2 times through Finish(); Reset(); rules added again, before the observed event with a failing non-last rule; boundary = every ordered pair of the boundary pool as the priorities of a 2-rule event (failing rule at each rank / none, both flag settings) and random triples, child monitor priorities from the pool; random = up to 3 levels of event kinds, 1..4 rules each, skipped (non-triggering) child events, priorities -1..4; observed: queue trace (push/pop with the cascade chosen), per-cascade monitor history with HighestPriority() sampled inside every action, per event the action start sequence and the error report.  (d) sinks DECLARED IN ECAL SOURCE on a runtime provider (through sinkRuntime.createRule): priorities written as -1000000000, -2, -1, -0.5, 0, 0.5, 1, 1.7, 2, 1000000000 (rule priority = floor), every ordered pair in declaration order with the failing sink first / second / none, random 3..4-sink events, default flag and flag off; the sink bodies log their start through a Go function, addEvent a child and raise; observed: action start sequence, error report, processing of the added events.  non-trivial = history with a finish or skip / trace with more than one pop / event with several rules or a failing one"
 	c.BeginCases("From Coq Require Import List ZArith.\nFrom Ecal Require Import Run.RunC10.\nImport ListNotations.\nOpen Scope Z_scope.", "raw", 1000)
 	engine.UnitTestResetIDs()
 	config.Config[config.WorkerCount] = 1 // the processor of a runtime provider: one worker, as everywhere here
@@ -807,6 +979,14 @@ func runC10(c *Ctx) error {
 		}
 		if err := c.LoadReplay(&probe); err != nil {
 			return err
+		}
+		if probe.Type == "sinks" {
+			var d c10SinkScenario
+			if err := c.LoadReplay(&d); err != nil {
+				return err
+			}
+			c10sinkOne(c, d, "replay")
+			return nil
 		}
 		if probe.Type == "mon" {
 			var d c10MonCase
@@ -828,6 +1008,9 @@ func runC10(c *Ctx) error {
 	c10monitorPart(c)
 	if !c.Enough() {
 		c10scenarioPart(c)
+	}
+	if !c.Enough() {
+		c10sinkPart(c)
 	}
 	for k := range c.Dist {
 		if strings.HasPrefix(k, "scenario_not_driven") {
